@@ -187,6 +187,12 @@ def enumerate_cases(tier):
             for rep in range(2 if tier == "quick" else 6):
                 k += 1
                 yield "shapes<=3d", {"mode": "shape", "spec": _det_spec(list(shape), k)}
+    # a few 4-d shapes with every axis form (all ordered pairs and triples of names, incl. non-adjacent ones)
+    shapes4 = [(2, 3, 2, 2), (2, 2, 2, 2), (1, 2, 3, 2)] + ([(3, 2, 1, 2), (2, 2, 3, 3), (2, 3, 4, 2)] if tier == "thorough" else [])
+    for shape in shapes4:
+        k += 6    # NaN-free float pattern (mode 0)
+        yield "shapes-4d", {"mode": "shape", "spec": _det_spec(list(shape), k - (k % 6))}
+        yield "shapes-4d", {"mode": "shape", "spec": _det_spec(list(shape), k - (k % 6) + 1)}
 
 
 def axis_forms(dims):
@@ -203,6 +209,8 @@ def axis_forms(dims):
         out.append((["T"] + list(dims)[::-1], list(dims)))
         if n >= 3:
             out.append((["T", dims[2], 0, dims[1]], list(dims)[:3]))
+            for tri in itertools.permutations(range(n), 3):      # every ordered triple (4-d: 24, incl. non-adjacent ones)
+                out.append((["T"] + [dims[i] for i in tri], [dims[i] for i in tri]))
     return out
 
 
